@@ -111,7 +111,7 @@ func registerExtlib(ex *Executor) {
 		return ex.bufAt(st, p).S, cNext
 	}
 	I["(*bytes.Buffer).Len"] = func(ex *Executor, st *State, cc *CallCtx, args []Val) (Val, ctl) {
-		return smt.StrLen(ex.bufAt(st, args[0].(Ptr)).S), cNext
+		return ex.strLen(st, ex.bufAt(st, args[0].(Ptr)).S), cNext
 	}
 	I["(*bytes.Buffer).Reset"] = func(ex *Executor, st *State, cc *CallCtx, args []Val) (Val, ctl) {
 		ex.store(st, args[0].(Ptr), &BufV{S: smt.StrC("")})
@@ -132,7 +132,7 @@ func registerExtlib(ex *Executor) {
 			ex.abort("Buffer.Write of %T", x)
 		}
 		ex.store(st, p, &BufV{S: smt.Concat(b.S, add)})
-		return TupleV{smt.StrLen(add), IfaceV{}}, cNext
+		return TupleV{ex.strLen(st, add), IfaceV{}}, cNext
 	}
 	I["(*bytes.Buffer).Write"] = bufWrite
 	I["(*bytes.Buffer).WriteString"] = bufWrite
@@ -228,7 +228,7 @@ func registerExtlib(ex *Executor) {
 	}
 	I["@verifReaderLeft"] = func(ex *Executor, st *State, cc *CallCtx, args []Val) (Val, ctl) {
 		r := ex.load(st, args[0].(Ptr)).(*ReaderV)
-		return smt.Sub(smt.StrLen(r.S), r.Off), cNext
+		return smt.Sub(ex.strLen(st, r.S), r.Off), cNext
 	}
 	I["@verifReaderAdvance"] = func(ex *Executor, st *State, cc *CallCtx, args []Val) (Val, ctl) {
 		p := args[0].(Ptr)
@@ -249,7 +249,7 @@ func registerExtlib(ex *Executor) {
 	}
 	I["(*bytes.Reader).Len"] = func(ex *Executor, st *State, cc *CallCtx, args []Val) (Val, ctl) {
 		r := ex.load(st, args[0].(Ptr)).(*ReaderV)
-		return smt.Sub(smt.StrLen(r.S), r.Off), cNext
+		return smt.Sub(ex.strLen(st, r.S), r.Off), cNext
 	}
 
 	// (*url.URL).String: modelled for path-only URLs as the Path itself (no escaping)
